@@ -55,24 +55,60 @@ func C19(tier rt.Tier) int {
 	if tier == rt.Thorough {
 		maxN, allPairs = 4096, 400
 	}
-	leaves := make([]string, maxN)
-	for i := range leaves {
-		leaves[i] = hhex(fmt.Sprintf("leaf-%d", i))
+	// leaf families: the usual 64-character hex hashes for every n, and (for small n) leaf hash strings of
+	// other uniform lengths -- the tree takes whatever string GetHash() returns
+	type family struct {
+		name   string
+		length int
+		maxN   int
+		leaves []string
+	}
+	smallN := 40
+	if tier == rt.Thorough {
+		smallN = 140
+	}
+	fams := []*family{{name: "64-character hashes", length: 64, maxN: maxN}}
+	for _, l := range []int{2, 62, 63, 65, 66, 96, 127, 128, 129, 200} {
+		fams = append(fams, &family{name: fmt.Sprintf("%d-character leaf hashes", l), length: l, maxN: smallN})
+	}
+	for _, f := range fams {
+		f.leaves = make([]string, f.maxN)
+		for i := range f.leaves {
+			h := hhex(fmt.Sprintf("leaf-%d", i))
+			switch {
+			case f.length == 64:
+				f.leaves[i] = h
+			case f.length == 2:
+				f.leaves[i] = fmt.Sprintf("%02x", i) // distinct
+			case f.length < 64:
+				f.leaves[i] = h[:f.length]
+			default:
+				// a common 64-character head, the distinguishing characters behind it
+				f.leaves[i] = (hhex("common-head") + h + h + h)[:f.length-8] + h[:8]
+			}
+		}
 	}
 	var mu sync.Mutex
 	evals, paths, negatives := 0, 0, 0
 	fails := 0
-	report := func(n int, msg string) {
+	type item struct{ fam, n int }
+	reportF := func(it item, msg string) {
 		mu.Lock()
 		defer mu.Unlock()
 		fails++
 		if fails <= 3 {
-			rep.Violate(fmt.Sprintf("n=%d leaves: %s", n, msg), map[string]any{"n": n})
+			rep.Violate(fmt.Sprintf("n=%d leaves (%s): %s", it.n, fams[it.fam].name, msg), map[string]any{"n": it.n, "family": it.fam})
 		}
 	}
-	work := make(chan int, maxN)
-	for n := 1; n <= maxN; n++ {
-		work <- n
+	total := 0
+	for _, f := range fams {
+		total += f.maxN
+	}
+	work := make(chan item, total)
+	for fi, f := range fams {
+		for n := 1; n <= f.maxN; n++ {
+			work <- item{fi, n}
+		}
 	}
 	close(work)
 	var wg sync.WaitGroup
@@ -80,7 +116,9 @@ func C19(tier rt.Tier) int {
 		wg.Add(1)
 		go func() {
 			defer wg.Done()
-			for n := range work {
+			for it := range work {
+				n, leaves := it.n, fams[it.fam].leaves
+				report := func(n int, msg string) { reportF(it, msg) }
 				func() {
 					defer func() {
 						if r := recover(); r != nil {
@@ -226,12 +264,12 @@ func C19(tier rt.Tier) int {
 	}
 	wg.Wait()
 	rep.Set("evaluations", evals)
-	rep.Set("states", maxN)
+	rep.Set("states", total)
 	rep.Set("transitions", paths)
 	rep.Set("traces_validated_against_impl", paths)
 	rep.Set("distinct_nontrivial", paths)
 	rep.Set("negative_verifications", negatives)
-	rep.Set("rule", fmt.Sprintf("every leaf count n = 1..%d with distinct leaf hashes; every leaf index: path by index and by leaf lookup, verification by VerifyMerklePath and VerifyPath against a root that must equal an independent recursive reference root (own SHA3); the same path offered with every other leaf hash of the tree for n <= %d (structured neighbours, first/last/middle for larger n), with a foreign hash, with the sibling hash and with the root; export/import via GetTree/SetTree incl. rejected wrong leaf counts, also into a tree object that was used for another tree before; 'states' = tree sizes, 'transitions' = (n, index) pairs", maxN, allPairs))
+	rep.Set("rule", fmt.Sprintf("every leaf count n = 1..%d with distinct 64-character leaf hashes, and n = 1..%d with leaf hash strings of uniform length 2, 62, 63, 65, 66, 96, 127, 128, 129, 200 (longer ones share their first 64 characters); every leaf index: path by index and by leaf lookup, verification by VerifyMerklePath and VerifyPath against a root that must equal an independent recursive reference root (own SHA3); the same path offered with every other leaf hash of the tree for n <= %d (structured neighbours, first/last/middle for larger n), with a foreign hash, with the sibling hash and with the root; export/import via GetTree/SetTree incl. rejected wrong leaf counts, also into a tree object that was used for another tree before; 'states' = tree sizes, 'transitions' = (n, index) pairs", maxN, smallN, allPairs))
 	rep.Sample(map[string]any{"n": 5, "index": 4, "note": "odd level: last node paired with itself"})
 	rep.Sample(map[string]any{"n": 1, "index": 0})
 	return rep.Finish()
